@@ -247,7 +247,7 @@ def r9d(fb, rep):
     rep.floor(R, "writers of Reference.value", len(writers), 2)
     shapes = {}
     for bid, b in writers.items():
-        dcv = [c for c in b.calls() if any(n.endswith("::deep_clone_value") for n in c.names())]
+        dcv = [c for c in b.calls() if any(e4._is_dcv(n) for n in c.names())]
         lock = [c for c in b.calls() if c.res.endswith("Mutex::<T>::lock") and ("field", REF, "value") in flow.sources(b, c.args[0])]
         shapes[bid] = (bool(dcv), bool(lock))
     if len(set(shapes.values())) == 1 and all(all(s) for s in shapes.values()):
